@@ -97,7 +97,7 @@ func VerifC09_EventWhileCleaningUp() {
 	late := zz.Choice("late", VerifNumEvents)
 	zz.Assume(datatransfer.EventCode(late) != datatransfer.CleanupComplete) // internal: only the cleanup triggers it
 	zz.Assume(datatransfer.EventCode(late) != datatransfer.CompleteCleanupOnRestart)
-	names := []string{"Open@cleanup", "Accept@cleanup", "Restart@cleanup", "DataReceived@cleanup", "DataSent@cleanup", "Cancel@cleanup", "Error@cleanup", "CleanupComplete@cleanup", "NewVoucher@cleanup", "NewVoucherResult@cleanup", "PauseInitiator@cleanup", "ResumeInitiator@cleanup", "PauseResponder@cleanup", "ResumeResponder@cleanup", "FinishTransfer@cleanup", "ResponderCompletes@cleanup", "ResponderBeginsFinalization@cleanup", "BeginFinalizing@cleanup", "Disconnected@cleanup", "Complete@cleanup", "CompleteCleanupOnRestart@cleanup", "DataQueued@cleanup", "DataQueuedProgress@cleanup", "DataSentProgress@cleanup", "DataReceivedProgress@cleanup", "RequestTimedOut@cleanup", "SendDataError@cleanup", "ReceiveDataError@cleanup", "TransferRequestQueued@cleanup", "RequestCancelled@cleanup", "Opened@cleanup", "SetDataLimit@cleanup", "SetRequiresFinalization@cleanup", "DataLimitExceeded@cleanup", "TransferInitiated@cleanup", "SendMessageError@cleanup"}
+	names := verifEventAtCleanupNames()
 	zz.Assert(len(names) == VerifNumEvents, "name table covers every event code")
 	fired := false
 	f.env.CleanupHook = func() {
@@ -131,4 +131,46 @@ func VerifC09_EventWhileCleaningUp() {
 		zz.Reach("a second ending arrived while the first cleanup ran")
 	}
 	zz.Reach("settled after an event during the cleanup")
+}
+
+func verifEventAtCleanupNames() []string {
+	return []string{"Open@cleanup", "Accept@cleanup", "Restart@cleanup", "DataReceived@cleanup", "DataSent@cleanup", "Cancel@cleanup", "Error@cleanup", "CleanupComplete@cleanup", "NewVoucher@cleanup", "NewVoucherResult@cleanup", "PauseInitiator@cleanup", "ResumeInitiator@cleanup", "PauseResponder@cleanup", "ResumeResponder@cleanup", "FinishTransfer@cleanup", "ResponderCompletes@cleanup", "ResponderBeginsFinalization@cleanup", "BeginFinalizing@cleanup", "Disconnected@cleanup", "Complete@cleanup", "CompleteCleanupOnRestart@cleanup", "DataQueued@cleanup", "DataQueuedProgress@cleanup", "DataSentProgress@cleanup", "DataReceivedProgress@cleanup", "RequestTimedOut@cleanup", "SendDataError@cleanup", "ReceiveDataError@cleanup", "TransferRequestQueued@cleanup", "RequestCancelled@cleanup", "Opened@cleanup", "SetDataLimit@cleanup", "SetRequiresFinalization@cleanup", "DataLimitExceeded@cleanup", "TransferInitiated@cleanup", "SendMessageError@cleanup"}
+}
+
+// VerifC09_TwoEventsWhileCleaningUp: as EventWhileCleaningUp, with TWO arbitrary events queued
+// behind the running cleanup (handled in order before its CleanupComplete).
+//
+//verif:tier thorough
+//verif:opts viol=40
+func VerifC09_TwoEventsWhileCleaningUp() {
+	f := verifFixtureWith(1, 0)
+	pre := f.pre
+	zz.Assume(!IsChannelTerminated(pre.Status) && !IsChannelCleaningUp(pre.Status))
+	f.g.QueueWhileBusy = true
+	ending := []datatransfer.EventCode{datatransfer.Cancel, datatransfer.Error, datatransfer.Complete}[zz.Choice("ending", 3)]
+	late1, late2 := zz.Choice("late1", VerifNumEvents), zz.Choice("late2", VerifNumEvents)
+	for _, l := range []int{late1, late2} {
+		zz.Assume(datatransfer.EventCode(l) != datatransfer.CleanupComplete && datatransfer.EventCode(l) != datatransfer.CompleteCleanupOnRestart)
+	}
+	names := verifEventAtCleanupNames()
+	fired := false
+	f.env.CleanupHook = func() {
+		if fired {
+			return
+		}
+		fired = true
+		zz.Note("events arriving while the cleanup runs:")
+		zz.Note(names[late1])
+		zz.Note(names[late2])
+		_ = VerifSendArbitrary(f.g, f.chid, datatransfer.EventCode(late1), "late1")
+		_ = VerifSendArbitrary(f.g, f.chid, datatransfer.EventCode(late2), "late2")
+	}
+	_ = VerifSendArbitrary(f.g, f.chid, ending, "end")
+	post := f.g.VerifPeek(f.chid)
+	zz.Assert(fired, "every ending is taken from every live status and starts the cleanup")
+	entered := f.g.CleanupEntries
+	zz.Assert(!IsChannelCleaningUp(post.Status), "without further input the channel settles")
+	zz.Assert(len(f.env.Cleanups) == entered, "the transport resources are released exactly once per entering of a cleanup status, whatever arrives while the cleanup runs")
+	zz.Assert(len(f.env.Unprotects) == entered, "the peer connection is un-protected exactly once per entering of a cleanup status, whatever arrives while the cleanup runs")
+	zz.Reach("settled after two events during the cleanup")
 }
